@@ -1116,7 +1116,8 @@ impl Prop for C08 {
     fn check(&self, case: &C08Case, lane: usize, st: &mut Stats) -> Result<(), Fail> {
         tracker_reset();
         z_reset();
-        let mut world = std::mem::ManuallyDrop::new(World::empty());
+        let mut world_md = std::mem::ManuallyDrop::new(World::empty());
+        let world = &mut world_md;
         let mut model = BorrowModel {
             cells: BTreeMap::new(),
         };
@@ -1135,7 +1136,7 @@ impl Prop for C08 {
                 reg_order.push(*t);
             }
         }
-        let world: &World = &world;
+        let world: &World = &**world;
         let table = &table;
         let mut held: Vec<Option<HB<'_>>> = (0..8).map(|_| None).collect();
         let mut iter = IterState::None;
@@ -1561,6 +1562,10 @@ impl Prop for C08 {
         if panics > 0 && rebor > 0 {
             st.nontrivial(case, || json!({"predicted_panics": panics, "reborrows": rebor}));
         }
+        // every guard is gone and every cell probed free: the world itself goes now (a case that
+        // ends in a failure above keeps its world alive on purpose: guards may still point into it)
+        drop(held);
+        drop(std::mem::ManuallyDrop::into_inner(world_md));
         Ok(())
     }
 
